@@ -83,6 +83,10 @@ pub trait Prop: Copy + Send + Sync + 'static {
     fn isolated(&self) -> bool {
         false
     }
+    /// run indices written out as samples in the evidence
+    fn sample_runs(&self, _tier: Tier) -> Vec<u64> {
+        vec![0, 1, 2]
+    }
     /// extra top-level coverage keys derived from merged counters
     fn extra_coverage(&self, _counters: &BTreeMap<String, u64>) -> Value {
         json!({})
@@ -755,7 +759,7 @@ pub fn standard_check<P: Prop>(prop: &P, o: &CheckOpts) -> i32 {
         workers: o.workers,
         from: 0,
         digest: false,
-        sample_runs: vec![0, 1, 2],
+        sample_runs: prop.sample_runs(o.tier),
         known_classes: findings
             .iter()
             .filter(|f| f.property == prop.id() && f.status == "open")
